@@ -107,6 +107,58 @@ def text_use(chk, P):
         chk.require(lits == {"c", "C", "x", "X", "z", "Z"}, "TAB", "TAB:row-letters", str(sorted(lits)), "row letters compared with %s" % sorted(lits))
 
 
+LITERAL_KINDS = ("DecInt", "HexInt", "BinInt", "OctInt")
+
+
+def radix_symmetry(chk, P):
+    """"writing an integer literal in another radix": outside parse_number (which picks radix and prefix, C08 rule 8) no
+    code may tell the four literal kinds apart — every switch on a token kind sends them to the same arm, and no literal
+    kind is named as a constant (`at(DecInt)`, `kind == HexInt`).  Otherwise the verdict depends on *where* a radix is used."""
+    import json as _json
+    from ..core import pan as _pan
+    nsw = 0
+    split = []
+    consts = []
+    nagg = 0
+    for b in P.f.hand_bodies():
+        if b.derived:
+            continue
+        is_pn = b.name == c08.PN
+        for bb in sorted(b.reachable_blocks()):
+            t = b.term(bb)
+            if t["t"] == "switch":
+                vs = _pan._variants_of_discr(b, t["discr"], bb)
+                if vs and set(LITERAL_KINDS) <= {v["name"] for v in vs}:
+                    nsw += 1
+                    tg = dict((v, k) for v, k in t["targets"])
+                    m = {}
+                    for v in vs:
+                        if v["name"] in LITERAL_KINDS:
+                            k = tg.get(v["discr"], t["otherwise"])
+                            seen = set()
+                            while k not in seen and not b.blocks[k]["stmts"] and b.term(k)["t"] == "goto":
+                                seen.add(k)
+                                k = b.term(k)["target"]
+                            m[v["name"]] = k
+                    if len(set(m.values())) > 1 and not is_pn:
+                        groups = {}
+                        for k_, v_ in m.items():
+                            groups.setdefault(v_, []).append(k_)
+                        split.append((b.name.split("::")[-1], sorted(sorted(g) for g in groups.values())))
+            for st in b.blocks[bb]["stmts"]:
+                rv = st.get("rv") if st["s"] == "assign" else None
+                if rv and rv["r"] == "agg" and rv.get("adt", "").endswith("lexer::token::TokenKind"):
+                    nagg += 1
+                    if rv.get("variant") in LITERAL_KINDS and not is_pn:
+                        consts.append((b.name.split("::")[-1], rv["variant"]))
+    chk.require(not split, "TAB", "TAB:radix-symmetry:kind-switches", "%d switches on a token kind: the four literal kinds always take the same arm (parse_number excepted)" % nsw,
+                "literal kinds are told apart outside parse_number: %s — a literal's radix decides whether it is accepted there" % split[:4])
+    chk.require(not consts, "WHO", "WHO:radix-symmetry:no-literal-kind-constant", "%d token-kind constants: none names a single literal kind" % nagg,
+                "a single literal kind is named as a constant in %s" % consts[:4])
+    chk.floor("TAB", "switches over the literal kinds", nsw, 7)
+    chk.floor("WHO", "token-kind constants seen", nagg, 20)
+
+
 def run(chk, ctx):
     P = Prog(ctx["facts"])
     from .iter_rules import plumbing_rule
@@ -125,6 +177,7 @@ def run(chk, ctx):
         for kind, rx in (("DecInt", "[1-9][0-9]*"), ("HexInt", "0[xX][0-9a-fA-F]+"), ("BinInt", "0[bB][01]+"), ("OctInt", "0[0-7]*")):
             chk.require(spec.same_language(kind, rx), "LEX", "LEX:literal:%s" % kind, "language of %s == %s" % (kind, rx), "the pattern of %s (%s) does not denote %s" % (kind, [p["src"] for p in spec.patterns(kind)], rx))
     c08.parse_number_rule(chk, P)
+    radix_symmetry(chk, P)
     pn = P.body(c08.PN)
     if pn is not None:
         radix = set()
